@@ -706,7 +706,10 @@ def unwrap_enum(a):
 def _dtkey(sp):
     from deepdiff.helper import datetime_normalize
     tz = kwargs_of(sp).get("default_timezone", datetime.timezone.utc)
-    return lambda k: "dt<%s>" % datetime_normalize(sp["trunc"], k, default_timezone=tz).isoformat()
+    def f(k):
+        n = datetime_normalize(sp["trunc"], k, default_timezone=tz)       # a time becomes its seconds
+        return "dt<%s>" % (n.isoformat() if hasattr(n, "isoformat") else repr(n))
+    return f
 
 
 def _dec_norm(a):
@@ -746,9 +749,9 @@ FEATURES = [
      lambda t1, t2, sp, c: bool(sp["trunc"]) and (dt_in_iterable(t1) or dt_in_iterable(t2)),
      lambda t1, t2, sp: (vmap(t1, lambda a: _truncate(a, sp["trunc"])), vmap(t2, lambda a: _truncate(a, sp["trunc"])), dict(sp, trunc=None))),
     ("C12-datetime-dict-keys",
-     lambda t1, t2, sp, c: any(isinstance(k, datetime.datetime) for k in all_keys2(t1, t2)),
-     lambda t1, t2, sp: (rekey(t1, lambda k: isinstance(k, datetime.datetime), _dtkey(sp)),
-                         rekey(t2, lambda k: isinstance(k, datetime.datetime), _dtkey(sp)), sp)),
+     lambda t1, t2, sp, c: any(isinstance(k, (datetime.datetime, datetime.time)) for k in all_keys2(t1, t2)),
+     lambda t1, t2, sp: (rekey(t1, lambda k: isinstance(k, (datetime.datetime, datetime.time)), _dtkey(sp)),
+                         rekey(t2, lambda k: isinstance(k, (datetime.datetime, datetime.time)), _dtkey(sp)), sp)),
     ("C12-enum-dict-keys",
      lambda t1, t2, sp, c: sp["enum"] and any(isinstance(k, Enum) for k in all_keys2(t1, t2)),
      both_keys(lambda k: isinstance(k, Enum), lambda k: "enum<%s.%s>" % (type(k).__name__, k.name))),
@@ -819,7 +822,8 @@ PREDICTS = {
     # the missing type check makes the diff engine more lenient, or makes the comparer of t1's type raise
     "C12-enum-unwrap-skips-type-check": lambda h, d, x: (h, d) == ("F", "empty") or d in ("EXC:AttributeError", "EXC:TypeError"),
     "C12-enum-distance-TypeError": lambda h, d, x: d == "EXC:TypeError",
-    "C12-number-vs-datetime-TypeError": lambda h, d, x: d == "EXC:TypeError",
+    # round(datetime) in _diff_numbers (TypeError); with truncate_datetime the datetime comparer normalises the NUMBER: number.replace (AttributeError)
+    "C12-number-vs-datetime-TypeError": lambda h, d, x: d == "EXC:TypeError" or (d == "EXC:AttributeError" and bool(x["sp"]["trunc"])),
     "C12-timedelta-hash-TypeError": lambda h, d, x: h == "X",
     "C12-truncate-date-timedelta-raises": lambda h, d, x: d in ("EXC:TypeError", "EXC:AttributeError"),
     "C12-date-key-cleaning-TypeError": lambda h, d, x: d == "EXC:TypeError",
@@ -1464,6 +1468,64 @@ def y_specs(rng):
     return out
 
 
+def facing_leaves(t1, t2, acc):
+    """the pairs of leaves _diff compares directly: the root, and dict values under ==-equal keys, at any depth"""
+    if isinstance(t1, dict) and isinstance(t2, dict):
+        for k, x in t1.items():
+            try:
+                if k in t2 and any(q is k or (type(q) is type(k) and q == k) for q in t2):
+                    facing_leaves(x, t2[k], acc)
+            except TypeError:
+                pass
+    elif not isinstance(t1, (dict, list, tuple, set, frozenset)) and not isinstance(t2, (dict, list, tuple, set, frozenset)):
+        acc.append((t1, t2))
+    return acc
+
+
+def y_theorem_replay(ctx, pairs):
+    """Y.C12_datetime_hash_iff_diff and Y.C12_enum_transfer_partial replayed on the implementation with their
+    hypotheses OBSERVED: for every facing pair of leaves of a generated pair that satisfies the hypotheses
+    (two datetimes; exclude_types empty - a member facing a plain value / a member of another class, neither
+    None-valued, use_enum_value on) both engines are run on that pair of leaves alone."""
+    n_dt = n_en = n_en_same = 0
+    seen = set()
+    for _fam, t1, t2, sp, rep in pairs:
+        kw = kwargs_of(sp)
+        for a, b in facing_leaves(t1, t2, []):
+            key = (lit(a), lit(b), name_of(sp))
+            if key in seen:
+                continue
+            seen.add(key)
+            if type(a) is datetime.datetime and type(b) is datetime.datetime:
+                # hypotheses of the datetime theorem: o_excl F = [] (exclude_types is never passed), H injective (SHA-256, trusted)
+                n_dt += 1
+                he, dv = hash_verdict(a, b, kw, rep), diff_verdict(a, b, kw, rep)[0]
+                ctx.count("theorem_y_datetime:%s" % ("hash_eq" if he is True else "hash_ne"))
+                if agree(he, dv) is not True:
+                    ctx.break_("correspondence", {"name": "Y.C12_datetime_hash_iff_diff", "a": lit(a), "b": lit(b), "options": name_of(sp),
+                                                  "what": "two datetimes at a directly compared position: hash_eq=%r diff=%s" % (he, dv)})
+            elif sp["enum"] and isinstance(a, Enum) and not (isinstance(b, Enum) and type(b) is type(a)):
+                ub = b.value if isinstance(b, Enum) else b
+                if a.value is None or ub is None:
+                    ctx.count("theorem_y_enum_transfer:hypothesis_false(None-valued)")
+                    continue
+                n_en += 1
+                ctx.count("theorem_y_enum_transfer:hypotheses_hold")
+                if type(a.value) is type(ub):
+                    # same-typed values: the comparer without type check is the ordinary comparer, so the right-hand side of the
+                    # transfer theorem is the property for the two plain values - observable
+                    n_en_same += 1
+                    lhs = agree(hash_verdict(a, b, kw, rep), diff_verdict(a, b, kw, rep)[0])
+                    rhs = agree(hash_verdict(a.value, ub, kw, rep), diff_verdict(a.value, ub, kw, rep)[0])
+                    if (lhs is True) != (rhs is True):
+                        ctx.break_("correspondence", {"name": "Y.C12_enum_transfer_partial", "a": lit(a), "b": lit(b), "options": name_of(sp),
+                                                      "what": "member vs value: property %r, for the unwrapped values %r" % (lhs, rhs)})
+    ctx.note("extended_universe_theorems_replayed_on_implementation",
+             "Y.C12_datetime_hash_iff_diff: %d distinct facing pairs of datetimes (root / dict values at any depth) under their option sets - the two "
+             "real engines agree on every one; Y.C12_enum_transfer_partial: hypotheses observed true on %d facing (member, value / other-class member) "
+             "pairs, on the %d with same-typed values the property for the pair == the property for the unwrapped values" % (n_dt, n_en, n_en_same))
+
+
 def _ytask(args):
     t1l, t2l, sp, rep = args
     t1, t2 = unlit(t1l), unlit(t2l)
@@ -1502,8 +1564,8 @@ def y_stream(ctx, pool, pairs, label="ymodel"):
         F = y_opts(sp)
         expr = "run_c12y %s %s %s %s %s" % (CFG, F, core.coq_bool(rep), y_to_coq(a), y_to_coq(b))
         cases.append((expr, [he if isinstance(he, bool) else "raised", dv], case))
-        hyp.append(("c12y_hyps %s %s %s %s %s" % (CFG, F, core.coq_bool(rep), y_to_coq(a), y_to_coq(b)), case, ok))
     ctx.coq_cases("c12y_pairs", YHEADER, cases, shard=150, label="both_engines_on_listfree_pairs_extended_universe_all_options")
+    y_theorem_replay(ctx, pairs)
     return hyp
 
 
@@ -1520,7 +1582,19 @@ def _task(args):
     expr = None
     gexpr = None
     pairing = None
-    if want_model and is_modelled(sp) and in_universe(t1, t2) and isinstance(he, bool) and not harmful_alias(t1, t2, kw):
+    alias = harmful_alias(t1, t2, kw) if (want_model and is_modelled(sp)) else False
+    memo_ok = alias and name_of(sp) == "default" and not any(isinstance(a, bool) for a in atoms_of(t1) + atoms_of(t2) + keys_of(t1) + keys_of(t2))
+    if want_model and is_modelled(sp) and in_universe(t1, t2) and isinstance(he, bool) and memo_ok:
+        # ==-aliasing atoms at default options: the models WITH the `hashes` tables threaded (K2 inside the correspondence)
+        knobs = sp.get("knobs", {})
+        dv, rec = diff_verdict(t1, t2, kw, rep, record=True, **knobs)
+        if dv in ("empty", "nonempty") and not rec[2]:
+            in_model = True
+            tbl, ok, _h = rec
+            pairing = (sum(len(ji) for _p, ji, _x, _y in tbl), ok)
+            cfg = CFG0 if knobs.get("threshold_to_diff_deeper") == 0 else CFG
+            expr = "run_c12_memo %s %s %s %s %s" % (cfg, core.coq_bool(rep), C05.coq_pairs_table(tbl), V.to_coq(t1), V.to_coq(t2))
+    elif want_model and is_modelled(sp) and in_universe(t1, t2) and isinstance(he, bool) and not alias:
         knobs = sp.get("knobs", {})
         dv, rec = diff_verdict(t1, t2, kw, rep, record=True, **knobs)
         if dv in ("empty", "nonempty", "EXC:ValueError") and not rec[2]:
@@ -1572,6 +1646,8 @@ def evaluate(ctx, pool, jobs, label):
         if in_model:
             exp_dv = "raised" if dv.startswith("EXC:") else dv
             cases.append((expr, [he, exp_dv], dict(case, guard_expr=gexpr, agree=ok)))
+            if gexpr is None:
+                ctx.count("model:memo_threaded_models(==-aliases, default options)")
             ctx.count("model:paired_levels" if pairing[0] else "model:no_pairs")
             if not pairing[1]:
                 ctx.break_("correspondence", dict(case, what="recorded pairing is not a symmetric partial injection"))
@@ -1580,8 +1656,12 @@ def evaluate(ctx, pool, jobs, label):
     return cases
 
 
-GPARTS = ["lift_guard", "lift_guardb", "lg_tag(K1)", "lg_ascii", "lg_k9(exact)", "k9_of_rounds_1_2", "lg_cohk", "lg_keyb", "goodv_t1", "goodv_t2",
-          "wf_t1", "wf_t2", "alias_free_t1", "alias_free_t2", "shared_F", "threshold_le_1", "lift_guard_of_rounds_1_2"]
+GPARTS = ["lg_tag(K1)", "lg_ascii", "lg_k9(exact)", "k9_of_rounds_1_2", "lg_cohk", "lg_keyb", "goodv_t1", "goodv_t2",
+          "wf_t1", "wf_t2", "alias_free_t1", "alias_free_t2", "shared_F", "threshold_le_1"]
+# the composite guards are conjunctions of the components (HashDiffProofsParts: lift_guard_parts, lift_guardb_parts; old_lift_guard by definition)
+GCOMP = {"lift_guard": ("lg_tag(K1)", "lg_ascii", "lg_k9(exact)", "lg_cohk", "goodv_t1", "goodv_t2"),
+         "lift_guardb": ("lg_tag(K1)", "lg_ascii", "lg_k9(exact)", "lg_keyb", "goodv_t1", "goodv_t2"),
+         "lift_guard_of_rounds_1_2": ("lg_tag(K1)", "lg_ascii", "k9_of_rounds_1_2", "lg_cohk", "goodv_t1", "goodv_t2")}
 
 
 def guard_replay(ctx, cases):
@@ -1611,19 +1691,17 @@ def guard_replay(ctx, cases):
             return
         for j, (_e, _x, t) in enumerate(chunk):
             fl = dict(zip(GPARTS, (ch == "T" for ch in flags[n * j:n * (j + 1)])))
+            for comp, parts in GCOMP.items():
+                fl[comp] = all(fl[k] for k in parts)
             g, gb = fl["lift_guard"], fl["lift_guardb"]
             case = {k: v for k, v in t.items() if k not in ("guard_expr", "agree")}
-            # the components ARE the guard (HashDiffProofsParts.lift_guard_parts): cross-check the evaluation
-            conj = all(fl[k] for k in ("lg_tag(K1)", "lg_ascii", "lg_k9(exact)", "lg_cohk", "goodv_t1", "goodv_t2"))
-            if conj != g:
-                ctx.break_("correspondence", dict(case, name="lift_guard_parts", what="the guard is not the conjunction of its components"))
             if gb and not g:
                 ctx.break_("correspondence", dict(case, name="lift_guardb_sound", what="the per-key guard holds but the relational guard does not"))
             if fl["lift_guard_of_rounds_1_2"] and not g:
                 ctx.break_("correspondence", dict(case, name="lift_guard_weaker", what="the guard of rounds 1-2 holds but the present guard does not"))
             if not (fl["shared_F"] and fl["threshold_le_1"]):
                 ctx.break_("correspondence", dict(case, name="hypotheses", what="a generated case violates shared F / threshold <= 1"))
-            for k in GPARTS[2:]:
+            for k in GPARTS:
                 if not fl[k]:
                     ctx.count("hypothesis_false:%s" % k)
             failing = [k for k in ("lg_tag(K1)", "lg_ascii", "lg_k9(exact)", "lg_cohk", "goodv_t1", "goodv_t2") if not fl[k]]
@@ -1729,6 +1807,33 @@ WITNESSES = [
     ("C12_tag_refuted(strty)", 1, b"int:1", _s(strty=True), False, (True, "nonempty")),
     ("bytes-key distance TypeError fixed (3adbf05)", [[1, 2]], [[1, {b"k": 1}]], _s(), False, (False, "nonempty")),
     ("C12_bool_int_list_refuted(pairing off)", [True], [1], dict(_s(numty=True), knobs={"cutoff_intersection_for_pairs": 0}), False, (False, "nonempty")),
+    # round 3
+    ("C12_memo_alias_refuted", [1], [1.0], _s(), False, (False, "empty")),
+    ("C12_k9_boundary(True/2 inside)", True, 2, _s(numty=True), False, (False, "nonempty")),
+    ("C12_k9_boundary(2/True inside)", 2, True, _s(numty=True), False, (False, "nonempty")),
+    ("C12_k9_boundary(0.5/False outside)", 0.5, False, _s(numty=True, sig=0), False, (False, "empty")),
+    ("C12_k9_boundary(False/0.5 inside)", False, 0.5, _s(numty=True, sig=0), False, (False, "nonempty")),
+    ("Y.C12_decimal_exponent_refuted", Decimal("1.0"), Decimal("1.00"), _s(), False, (False, "empty")),
+    ("Y.C12_number_vs_datetime_refuted", -2, C11._dt(2024, 1, 1, 10, 20, 30, 0), _s(numty=True), False, (False, "EXC:TypeError")),
+    ("Y.C12_truncate_not_forwarded_refuted", {C11._dt(2024, 1, 1, 10, 20, 1, 0)}, {C11._dt(2024, 1, 1, 10, 20, 2, 0)}, _s(trunc="minute"), False, (True, "nonempty")),
+    ("Y.C12_truncate_not_forwarded_refuted(as values)", {"k": C11._dt(2024, 1, 1, 10, 20, 1, 0)}, {"k": C11._dt(2024, 1, 1, 10, 20, 2, 0)}, _s(trunc="minute"), False, (True, "empty")),
+    ("Y.C12_datetime_dict_keys_refuted", {C11._dt(2024, 1, 1, 10, 20, 30, 0): 1}, {C11._dt(2024, 1, 1, 8, 20, 30, 0, 0): 1}, _s(tz=120), False, (True, "nonempty")),
+    ("Y.C12_datetime_dict_keys_refuted(as values)", {"k": C11._dt(2024, 1, 1, 10, 20, 30, 0)}, {"k": C11._dt(2024, 1, 1, 8, 20, 30, 0, 0)}, _s(tz=120), False, (True, "empty")),
+    ("Y.C12_enum_dict_keys_refuted", {E.A: 1}, {1: 1}, _s(enum=True), False, (True, "nonempty")),
+    ("Y.C12_enum_none_value_refuted", E4.N, None, _s(enum=True), False, (True, "nonempty")),
+    ("Y.C12_enum_none_value_refuted(dict value)", {"k": E4.N}, {"k": None}, _s(enum=True), False, (True, "nonempty")),
+    ("Y.C12_enum_none_value_refuted(same member)", {"k": E4.N}, {"k": E4.N}, _s(enum=True), False, (True, "empty")),
+    ("Y.C12_enum_same_class_refuted", E.B, E.D, _s(enum=True, case=True), False, (True, "nonempty")),
+    ("Y.C12_enum_unwrap_skips_type_check_refuted", E.A, 1.0, _s(enum=True), False, (False, "empty")),
+    ("Y.C12_timedelta_hash_refuted", datetime.timedelta(seconds=5), datetime.timedelta(seconds=5), _s(sig=0), False, ("EXC:TypeError", "empty")),
+    ("Y.C12_truncate_date_timedelta_refuted(date)", {"k": datetime.date(2024, 1, 1)}, {"k": datetime.date(2024, 1, 1)}, _s(trunc="hour"), False, (True, "EXC:TypeError")),
+    ("Y.C12_truncate_date_timedelta_refuted(timedelta)", {"k": datetime.timedelta(seconds=5)}, {"k": datetime.timedelta(seconds=5)}, _s(trunc="hour"), False, (True, "EXC:AttributeError")),
+    ("Y.C12_date_key_cleaning_refuted", {datetime.date(2024, 1, 1): 1}, {datetime.date(2024, 1, 1): 1}, _s(case=True, sig=3), False, (True, "EXC:TypeError")),
+    ("Y.C12_extended_universe_agree_examples(trunc)", C11._dt(2024, 1, 1, 10, 20, 1, 0), C11._dt(2024, 1, 1, 10, 20, 2, 0), _s(trunc="minute"), False, (True, "empty")),
+    ("Y.C12_extended_universe_agree_examples(tz)", C11._dt(2024, 1, 1, 10, 20, 30, 0), C11._dt(2024, 1, 1, 8, 20, 30, 0, 0), _s(tz=120), False, (True, "empty")),
+    ("Y.C12_extended_universe_agree_examples(no option)", C11._dt(2024, 1, 1, 10, 20, 30, 0), C11._dt(2024, 1, 1, 8, 20, 30, 0, 0), _s(), False, (False, "nonempty")),
+    ("Y.C12_extended_universe_agree_examples(enum)", {"k": E.A}, {"k": 1}, _s(enum=True), False, (True, "empty")),
+    ("Y.C12_extended_universe_agree_examples(enum+case)", E.B, "X", _s(enum=True, case=True), False, (True, "empty")),
 ]
 
 
@@ -1750,11 +1855,18 @@ def replay_witnesses(ctx):
 # --------------------------------------------------------------------------
 
 def run(ctx):
+    import time
     rng = ctx.rng
     sys.setrecursionlimit(10000)
+    phases, t_last = {}, [time.time()]
+
+    def lap(name):
+        now = time.time()
+        phases[name] = round(now - t_last[0], 1)
+        t_last[0] = now
     replay_witnesses(ctx)
     mspecs = modelled_specs(rng)
-    n_model = 300 if ctx.thorough else 45          # pairs per modelled option set and family mix
+    n_model = 300 if ctx.thorough else 34          # pairs per modelled option set and family mix
     n_rich = 500 if ctx.thorough else 60
     jobs = []
     for t1, t2, sp in FIXED:
@@ -1762,7 +1874,7 @@ def run(ctx):
             jobs.append(("fixed", t1, t2, sp, rep, True))
     for sp in mspecs:
         for i in range(n_model):
-            fam = ["alt", "records", "near", "rand", "alt", "near", "records", "indep", "alt"][i % 9]
+            fam = ["alt", "records", "near", "rand", "alt", "near", "records" if ctx.thorough else "rand", "indep", "alt"][i % 9]
             t1, t2, log = gen_case_values(rng, fam, sp, rich=False)
             if i % 3 == 2:
                 sp = dict(sp, knobs=rng.choice(KNOBS))
@@ -1770,6 +1882,27 @@ def run(ctx):
             for a in log:
                 ctx.count("altered:%s@%s" % a if a[0] != "edit" else "edit:%s" % (str(a[1]).split(":")[0],))
             jobs.append((fam, t1, t2, spc, rng.random() < 0.5, True))
+    # ==-aliasing atoms (1 / 1.0, (1, 'a') / (1.0, 'a'), equal keys of other type) at default options: the memo-threaded models
+    for i in range(240 if ctx.thorough else 36):
+        t1 = V.gen_value(rng, rng.choice([1, 2, 2, 3]), 3, True, C05.STRS) if i % 2 else C11.gen_value(rng, rng.choice([1, 2, 2]), 3, True, True, False)
+        if not isinstance(t1, (list, tuple, dict)):
+            t1 = [t1, 1, 1.0]
+        t2 = C05.rebuild(t1, rng)
+        for _ in range(rng.choice([1, 1, 2])):
+            try:
+                t2, _k = C05.io_edit(rng, t2, alias=True)
+            except Exception:  # noqa
+                pass
+        if rng.random() < 0.5:
+            t2 = vmap(t2, lambda a: float(a) if (type(a) is int and rng.random() < 0.4) else (int(a) if (type(a) is float and a == int(a) and rng.random() < 0.4) else a),
+                      lambda k: k)
+        if rng.random() < 0.5:
+            t1, t2 = t2, t1
+        jobs.append(("memo", t1, t2, mk(), rng.random() < 0.5, True))
+    for t1, t2, sp in [([1], [1.0], _s()), ([1, 1.0], [1, 1], _s()), ([1, 1.0], [1.0, 1], _s()), ([[1, "a"]], [[1.0, "a"]], _s()), ([{"x": 1}], [{"x": 1.0}], _s()),
+                       ({"k": [1, 2.0]}, {"k": [2, 1.0]}, _s()), ([(1, "a")], [(1.0, "a")], _s()), ([1, 2], [1.0, 3], _s())]:
+        for rep in (False, True):
+            jobs.append(("memo", t1, t2, sp, rep, True))
     rich = []
     for t1, t2, sp in FIXED_RICH:
         for rep in (False, True):
@@ -1809,7 +1942,7 @@ def run(ctx):
             for rep in (False, True):
                 ypairs.append(("fixed", t1, t2, sp, rep))
     for sp in y_specs(rng):
-        for i in range(40 if ctx.thorough else 9):
+        for i in range(40 if ctx.thorough else 8):
             t1, t2 = gen_y_pair(rng, sp)
             if in_yuniverse(t1) and in_yuniverse(t2) and not (sp["enum"] and enum_meets_container(t1, t2)):
                 ypairs.append(("ygen", t1, t2, sp, rng.random() < 0.5))
@@ -1817,15 +1950,24 @@ def run(ctx):
         if fam != "fixed" and not sp.get("share") and y_listfree(t1) and y_listfree(t2) and in_yuniverse(t1) and in_yuniverse(t2) \
                 and not (sp["enum"] and enum_meets_container(t1, t2)):
             ypairs.append(("rich:" + fam, t1, t2, sp, rep))
+    lap("generate")
     with mp.get_context("fork").Pool(core.NCPU) as pool:
         cases = evaluate(ctx, pool, jobs, "model")
+        lap("engines+oracle:model_stream")
         evaluate(ctx, pool, rich, "rich")
+        lap("engines+oracle:rich_stream")
         yhyp = y_stream(ctx, pool, ypairs)
-    guard_replay(ctx, cases)
+        lap("engines+oracle+coq:extended_universe_stream")
+    guard_replay(ctx, [x for x in cases if x[2].get("guard_expr")])
+    lap("coq:hypotheses_on_model_cases")
     cases = [(e, x, {k: v for k, v in t.items() if k != "guard_expr"}) for e, x, t in cases]
     ctx.coq_cases("c12_pairs", HEADER, cases, shard=60, label="both_engines_on_pairs")
+    lap("coq:pairs")
     atom_level(ctx, mspecs)
+    lap("coq:atoms")
     pools(ctx, mspecs if ctx.thorough else rng.sample(mspecs, 6))
+    lap("coq:pools")
+    ctx.note("phase_seconds", phases)
     ctx.note("modelled_options", [name_of(s) for s in mspecs])
     ctx.note("direct_oracle_only", "truncate_datetime, default_timezone, use_enum_value, number_format_notation='e', Decimal, -0.0, non-ASCII "
                                    "str/bytes, undecodable bytes: exercised by the direct oracle only (no model, no theorem)")
